@@ -669,7 +669,12 @@ def m_decode(I, recv, a, k, node, kind):
         elif is_concrete(recv):
             safe = True
         if not safe:
-            I.may_raise(node, ['UnicodeDecodeError'], 'strict decode of unvalidated bytes', (recv, enc))
+            excs = ['UnicodeDecodeError']
+            if cenc is None:
+                # a codec chosen by the data: not every codec reports bad input with the subclass (punycode and idna
+                # raise a bare UnicodeError)
+                excs.append('UnicodeError')
+            I.may_raise(node, excs, 'strict decode of unvalidated bytes', (recv, enc))
     if is_concrete(recv) and is_concrete(enc):
         try:
             return concrete(recv).decode(concrete(enc))
